@@ -46,6 +46,7 @@ var (
 	OrderHook func(keys []string) []int
 
 	threads []*thread
+	alive   int // threads that have not finished
 	cur     *thread
 	endWG   sync.WaitGroup
 
@@ -65,6 +66,7 @@ func newThread() *thread {
 	t := &thread{id: len(threads)}
 	t.h = newHandle()
 	threads = append(threads, t)
+	alive++
 	return t
 }
 
@@ -75,7 +77,7 @@ func Begin() {
 	for _, t := range threads {
 		t.h.close()
 	}
-	threads = nil
+	threads, alive = nil, 0
 	Deadlock, ChildPanics, Points, Spawned, Unfinished = false, nil, 0, 0, 0
 	cur = newThread()
 	Active = true
@@ -159,6 +161,9 @@ func yieldOthers(self *thread) bool {
 //go:norace
 func schedule(self *thread) {
 	Points++
+	if alive == 1 && !self.done && enabled(self) {
+		return // only this goroutine exists: nothing to choose
+	}
 	var en []*thread
 	selfEn := enabled(self)
 	if selfEn {
@@ -239,6 +244,7 @@ func (t *thread) run(f func()) {
 	t.call(f)
 	endWG.Done()
 	t.done = true
+	alive--
 	schedule(t)
 }
 
